@@ -72,6 +72,10 @@ type verifCase struct {
 	EndB       string       `json:"endb"`
 	Front      *verifFront  `json:"front,omitempty"`
 	Setup      *verifSetup  `json:"setup,omitempty"`
+	// Link: the log path is not a plain file in a plain directory. "file": the path is a symbolic link to a real
+	// file elsewhere (on another file system when /dev/shm exists) holding the pre-existing content; "dangling":
+	// the link's target does not exist yet; "dir": the log directory itself is a symbolic link to the real one.
+	Link       string       `json:"link,omitempty"`
 	HoldGz     bool         `json:"holdgz,omitempty"` // compress phases wait for "g" events (later rotations overlap them)
 }
 
@@ -369,12 +373,19 @@ func verifNames(dir string) []string {
 func verifReadFile(path string) verifFile {
 	vf := verifFile{Name: filepath.Base(path), Runs: [][2]int{}}
 	if fi, err := os.Lstat(path); err == nil && !fi.Mode().IsRegular() {
-		vf.Gz = 78 // symlink or other special entry
+		if fi.Mode()&os.ModeSymlink != 0 {
+			// a link to a regular file reads as that file: the directory is observed the way open() sees it
+			if ti, err := os.Stat(path); err == nil && ti.Mode().IsRegular() {
+				goto read
+			}
+		}
+		vf.Gz = 78 // symlink to something else, dangling link or other special entry
 		if fi.IsDir() {
 			vf.Gz = 77
 		}
 		return vf
 	}
+read:
 	data, err := os.ReadFile(path)
 	if err != nil {
 		vf.Gz = -2
@@ -450,6 +461,31 @@ func verifRunCase(c verifCase) any {
 	if d, err := filepath.EvalSymlinks(dir); err == nil {
 		dir = filepath.Clean(d)
 	}
+	store := ""
+	if c.Link != "" {
+		base := ""
+		if fi, err := os.Stat("/dev/shm"); err == nil && fi.IsDir() {
+			base = "/dev/shm"
+		}
+		if store, err = os.MkdirTemp(base, "c19-store-"); err != nil {
+			if store, err = os.MkdirTemp("", "c19-store-"); err != nil {
+				return fail(err.Error())
+			}
+		}
+		defer os.RemoveAll(store)
+	}
+	if c.Link == "dir" {
+		real := filepath.Join(store, "logs")
+		if err := os.Mkdir(real, 0o755); err != nil {
+			return fail(err.Error())
+		}
+		if err := os.Remove(dir); err != nil {
+			return fail(err.Error())
+		}
+		if err := os.Symlink(real, dir); err != nil {
+			return fail(err.Error())
+		}
+	}
 	verifLines = nil
 	if c.Front != nil {
 		verifLines = map[string]int{}
@@ -496,6 +532,22 @@ func verifRunCase(c verifCase) any {
 		}
 	}
 
+	if c.Link == "file" || c.Link == "dangling" {
+		cur, target := filepath.Join(dir, c.File), filepath.Join(store, "current.real")
+		if data, err := os.ReadFile(cur); err == nil {
+			os.Remove(cur)
+			if err := os.WriteFile(target, data, 0o600); err != nil {
+				return fail(err.Error())
+			}
+		} else if c.Link == "file" {
+			if err := os.WriteFile(target, nil, 0o600); err != nil {
+				return fail(err.Error())
+			}
+		}
+		if err := os.Symlink(target, cur); err != nil {
+			return fail(err.Error())
+		}
+	}
 	filename := filepath.Join(dir, c.File)
 	compress := c.Compress
 	var builtSize *SizeLimitRotateRule
